@@ -1195,6 +1195,11 @@ class NumberOrderedForm(Operator):
             new_terms[powers] += coeff
         for powers, coeff in other_expanded.args[1]:
             new_terms[powers] += coeff
+        # Drop the terms that cancel, they would make e.g. a number conserving
+        # expression look like it is not.
+        new_terms = {
+            powers: coeff for powers, coeff in new_terms.items() if coeff != 0
+        }
         return type(self)(self_expanded.operators, new_terms, validate=False)
 
     def _combine_operators(
